@@ -16,6 +16,8 @@
  * 10 the last module of a non-persistent context deregisters itself inside a callback while the loop runs
  * 11 a task source whose module is stopped before the task has finished
  * 12 a stashed event is replayed (m_mod_unstash from outside the loop) to a handler that deregisters its own module
+ * 14 a subscription made with a duplicated topic is replaced (same topic, other flags) and then used and removed
+ * 15 a system notification naming a module as sender outlives that module's deregistration (last user reference gone)
  * 13 a PAUSED module with messages still in its mailbox is stopped (V0) / deregistered (V1) / goes with the context (V2) */
 #include "vf.h"
 #include "vf_os.h"
@@ -46,6 +48,14 @@ static void my_action(int who, int kind, m_mod_t *m, const m_queue_t *q) {
         if (e->type == M_SRC_TYPE_PS && !e->ps_evt->system) {
             /* the sender is gone from the context but must still answer name and state queries */
             VF_CHECK(m_mod_is(e->ps_evt->sender, M_MOD_ZOMBIE), "sender of an undelivered message stays a valid ZOMBIE");
+            touched += m_mod_name(e->ps_evt->sender)[0];
+        }
+    });
+#elif SCEN == 15
+    if (kind == VF_CB_EVT && who == 1) m_itr_foreach(q, {
+        m_evt_t *e = m_itr_get(m_itr);
+        if (e->type == M_SRC_TYPE_PS && e->ps_evt->system && e->ps_evt->sender) {
+            VF_CHECK(m_mod_is(e->ps_evt->sender, M_MOD_ZOMBIE), "the module named by a pending notification stays a valid ZOMBIE");
             touched += m_mod_name(e->ps_evt->sender)[0];
         }
     });
@@ -175,6 +185,28 @@ int vf_main(void) {
     r = m_ctx_quit(c12); r = m_ctx_dispatch();          /* the loop has returned: the replay happens outside any dispatch */
     { ssize_t n = m_mod_unstash(B, 1); VF_CHECK(n == 1, "one stashed event replayed"); }
     VF_CHECK(vf_ncalls[1] == 2 && vf_mods[1] == NULL, "the replay handler deregistered its own module");
+#elif SCEN == 14
+    m_mod_t *B = vf_mod(1, 0, NULL); r = m_mod_start(B); VF_CHECK(r == 0, "start B");
+    { char topic[4] = "evt";       /* the caller's buffer goes away: the subscription keeps its own copy (M_SRC_DUP) */
+      r = m_mod_ps_subscribe(B, topic, M_SRC_DUP, NULL); VF_CHECK(r == 0, "subscribe with a duplicated topic");
+      r = m_mod_ps_subscribe(B, topic, M_SRC_DUP | M_SRC_PRIO_HIGH, NULL); VF_CHECK(r == 0, "same topic again, other flags: replaced");
+      topic[0] = 'x'; }
+    VF_CHECK(m_mod_src_len(B, M_SRC_TYPE_END) == 1, "still one subscription");
+    r = m_ctx_dispatch();
+    p1 = payload();
+    r = m_mod_ps_publish(A, "evt", p1, pf); VF_CHECK(r == 0, "publish on the topic");
+    r = m_ctx_dispatch();
+    VF_CHECK(vf_ncalls[1] == 1, "delivered through the replaced subscription");
+#if V == 0
+    r = m_mod_ps_unsubscribe(B, "evt"); VF_CHECK(r == 0, "unsubscribe finds it");
+#endif
+#elif SCEN == 15
+    m_mod_t *B = vf_mod(1, 0, NULL); r = m_mod_start(B); VF_CHECK(r == 0, "start B");
+    r = m_mod_ps_subscribe(B, M_PS_MOD_STOPPED, 0, NULL); VF_CHECK(r == 0, "B subscribes to MOD_STOPPED");
+    r = m_ctx_dispatch();
+    r = m_mod_deregister(&vf_mods[0]); VF_CHECK(r == 0 && vf_mods[0] == NULL, "A deregistered, the user's last reference gone");
+    r = m_ctx_dispatch();
+    VF_CHECK(vf_ncalls[1] == 1, "B is told that A stopped");
 #elif SCEN == 13
     m_mod_t *B = vf_mod(1, 0, NULL); r = m_mod_start(B); VF_CHECK(r == 0, "start B");
     r = m_ctx_dispatch();
